@@ -64,26 +64,10 @@ fn probe(math: &mut WM, mm: &LowRankMassMatrix<WM>, x: &[f64], g: &[f64]) -> J {
     json!({"tpos": vb(&tp), "tgrad": vb(&tg), "logdet": logdet.ok().map(b)})
 }
 
-fn run_case(case: &J) -> J {
-    let dim = ju(case, "dim", 1) as usize;
-    let mut math = WM::new(TestLogp::std_normal(dim));
-    let settings = LowRankSettings {
-        store_mass_matrix: true,
-        gamma: case.get("gamma").map(fb).unwrap_or(1e-5),
-        eigval_cutoff: case.get("cutoff").map(fb).unwrap_or(2.0),
-    };
-    let mut mm = LowRankMassMatrix::new(&mut math, settings);
-    let mut prev_stds = vfb(&case["prev_stds"]);
-    if prev_stds.len() != dim {
-        prev_stds = vec![1.0; dim];
-    }
-    let mut prev_mean = vfb(&case["prev_mean"]);
-    if prev_mean.len() != dim {
-        prev_mean = vec![0.0; dim];
-    }
-    // a valid previous transformation (pure diagonal: no eigenvalues)
-    mm.verif_update(&mut math, &prev_stds, &prev_mean, &[], &[], &vec![0.0; dim]);
-    let before: Params = mm.verif_params(&mut math);
+/// one step on a persistent transformation: `regrad` (update_from_grad), `direct` (update) or a
+/// window fed to a fresh estimator followed by `adapt`
+fn apply_step(math: &mut WM, mm: &mut LowRankMassMatrix<WM>, case: &J, dim: usize, settings: LowRankSettings) -> J {
+    let before: Params = mm.verif_params(math);
     let mut probe_x = vfb(&case["probe_x"]);
     if probe_x.len() != dim {
         probe_x = (0..dim).map(|i| 0.25 + i as f64).collect();
@@ -101,16 +85,16 @@ fn run_case(case: &J) -> J {
         math.read_from_slice(&mut pos, &p);
         let mut grad = math.new_array();
         math.read_from_slice(&mut grad, &g);
-        let r = catch(std::panic::AssertUnwindSafe(|| mm.update_from_grad(&mut math, &pos, &grad, 1f64, (1e-20, 1e20))));
-        let after: Params = mm.verif_params(&mut math);
+        let r = catch(std::panic::AssertUnwindSafe(|| mm.update_from_grad(math, &pos, &grad, 1f64, (1e-20, 1e20))));
+        let after: Params = mm.verif_params(math);
         return json!({"id": case["id"], "before": params_json(&before), "after": params_json(&after), "panic": r.err()});
     }
     if let Some(d) = case.get("direct") {
         let (stds, mean, vals, vecs, mu) = (vfb(&d["stds"]), vfb(&d["mean"]), vfb(&d["vals"]), vvfb(&d["vecs"]), vfb(&d["mu"]));
         let lns: Vec<String> = vals.iter().map(|v| b(v.ln())).collect();
-        let r = catch(std::panic::AssertUnwindSafe(|| mm.verif_update(&mut math, &stds, &mean, &vals, &vecs, &mu)));
-        let after: Params = mm.verif_params(&mut math);
-        let pr = catch(std::panic::AssertUnwindSafe(|| probe(&mut math, &mm, &probe_x, &probe_g)));
+        let r = catch(std::panic::AssertUnwindSafe(|| mm.verif_update(math, &stds, &mean, &vals, &vecs, &mu)));
+        let after: Params = mm.verif_params(math);
+        let pr = catch(std::panic::AssertUnwindSafe(|| probe(math, mm, &probe_x, &probe_g)));
         return json!({"id": case["id"], "before": params_json(&before), "after": params_json(&after),
                       "panic": r.err(), "ln_vals": lns, "probe": pr.ok()});
     }
@@ -126,10 +110,10 @@ fn run_case(case: &J) -> J {
     // (`adapt` never runs the pipeline on fewer than three draws)
     let cu = if count < 3 { Ok(None) } else { catch(|| strat.verif_compute_update()) };
     let r = catch(std::panic::AssertUnwindSafe(|| {
-        <LowRankMassMatrixStrategy as MassMatrixAdaptStrategy<WM>>::adapt(&strat, &mut math, &mut mm)
+        <LowRankMassMatrixStrategy as MassMatrixAdaptStrategy<WM>>::adapt(&strat, math, mm)
     }));
-    let after: Params = mm.verif_params(&mut math);
-    let pr = catch(std::panic::AssertUnwindSafe(|| probe(&mut math, &mm, &probe_x, &probe_g)));
+    let after: Params = mm.verif_params(math);
+    let pr = catch(std::panic::AssertUnwindSafe(|| probe(math, mm, &probe_x, &probe_g)));
     let cuj = match &cu {
         Ok(Some((stds, mean, vals, vecs, mu))) => json!({
             "stds": vb(stds), "mean": vb(mean), "vals": vb(vals),
@@ -149,6 +133,43 @@ fn run_case(case: &J) -> J {
     json!({"id": case["id"], "count": count, "before": params_json(&before), "after": params_json(&after),
            "adapt": match &r { Ok(c) => json!(c), Err(p) => json!({"panic": p}) },
            "compute_update": cuj, "rescale": rsj, "probe": pr.ok()})
+}
+
+fn run_case(case: &J) -> J {
+    let dim = ju(case, "dim", 1) as usize;
+    let mut math = WM::new(TestLogp::std_normal(dim));
+    let settings = LowRankSettings {
+        store_mass_matrix: true,
+        gamma: case.get("gamma").map(fb).unwrap_or(1e-5),
+        eigval_cutoff: case.get("cutoff").map(fb).unwrap_or(2.0),
+    };
+    let mut mm = LowRankMassMatrix::new(&mut math, settings);
+    let mut prev_stds = vfb(&case["prev_stds"]);
+    if prev_stds.len() != dim {
+        prev_stds = vec![1.0; dim];
+    }
+    let mut prev_mean = vfb(&case["prev_mean"]);
+    if prev_mean.len() != dim {
+        prev_mean = vec![0.0; dim];
+    }
+    // a valid previous transformation (pure diagonal: no eigenvalues)
+    mm.verif_update(&mut math, &prev_stds, &prev_mean, &[], &[], &vec![0.0; dim]);
+    if let Some(h) = case.get("history").and_then(|x| x.as_array()) {
+        // several steps on the same transformation (each step carries its own gamma / cutoff)
+        let steps: Vec<J> = h
+            .iter()
+            .map(|st| {
+                let stg = LowRankSettings {
+                    store_mass_matrix: true,
+                    gamma: st.get("gamma").map(fb).unwrap_or(settings.gamma),
+                    eigval_cutoff: st.get("cutoff").map(fb).unwrap_or(settings.eigval_cutoff),
+                };
+                apply_step(&mut math, &mut mm, st, dim, stg)
+            })
+            .collect();
+        return json!({"id": case["id"], "steps": steps});
+    }
+    apply_step(&mut math, &mut mm, case, dim, settings)
 }
 
 fn main() {
